@@ -34,6 +34,7 @@ RULE = (
 )
 RULE += (" Template texts: for every public callable reachable from the template context (query / queries, rule, pipeline; public attributes, list items, dict values to depth 5; one per class and method) a template that calls it with the path of a Python file (and with no argument; thorough: two paths, source file) in a default-loaded pipeline, as post-processing template and as finalizer template: no process, network or exec-from-that-file event may occur, whatever the call returns or raises.")
 RULE += (" The attempts that pass an opt-in are repeated after the template has rendered another template item of the same pipeline (re-entrant rendering).")
+RULE += (" Pipeline YAML texts with explicit python tags (object/apply, object/new, name) are loaded through from_yaml and the resolver: no process may be started.")
 ASSUMPTIONS = [
     "capabilities are observed through CPython audit events (none of the anchored code uses a C "
     "extension that bypasses them)",
@@ -266,9 +267,57 @@ def check_surface_case(case: dict) -> Outcome:
     return out
 
 
+YAML_TAG_TEXTS = [
+    'name: p\ntransformations:\n- !!python/object/apply:os.system ["true"]\n',
+    'name: p\nvars: !!python/object/apply:subprocess.check_output [["true"]]\ntransformations: []\n',
+    'name: !!python/object/apply:os.system ["true"]\npriority: 10\n',
+    'name: p\npostprocessing:\n- type: template\n  template: !!python/object/apply:os.popen ["true"]\n',
+    'name: p\nfinalizers:\n- type: concat\n  separator: !!python/object/new:subprocess.Popen [["true"]]\n',
+    'name: p\ntransformations:\n- type: field_name_suffix\n  suffix: !!python/name:os.system\n',
+]
+
+
+def check_yaml_tag_case(case: dict) -> Outcome:
+    """Pipeline YAML text with explicit python tags: loading it (from_yaml, resolver) with default arguments must not
+    construct python objects (no process is started); any load error is fine."""
+    from sigma.processing.pipeline import ProcessingPipeline
+    from sigma.processing.resolver import ProcessingPipelineResolver
+
+    _install()
+    out = Outcome()
+    out.nontrivial = True
+    out.label("yaml-python-tag", "loader:" + case["loader"])
+    text = YAML_TAG_TEXTS[case["text"] % len(YAML_TAG_TEXTS)]
+    root, files, src = _scratch()
+    try:
+        del _EVENTS[:]
+        _ACTIVE[0] = True
+        try:
+            if case["loader"] == "yaml":
+                ProcessingPipeline.from_yaml(text)
+            else:
+                ppath = os.path.join(root, "base", "pipeline.yml")
+                with open(ppath, "w") as f:
+                    f.write(text)
+                ProcessingPipelineResolver().resolve([ppath])
+            out.label("loaded")
+        except Exception as e:  # noqa
+            out.label("raised:" + type(e).__name__)
+        finally:
+            _ACTIVE[0] = False
+        caps = [e for e in _EVENTS if e[0] in ("process", "network", "exec")]
+        if caps:
+            out.fail(f"C16:yaml-python-tag:{caps[0][0]}", f"loading {text!r} through {case['loader']}: events {caps[:3]}")
+    finally:
+        shutil.rmtree(root, ignore_errors=True)
+    return out
+
+
 def check_case(case: dict) -> Outcome:
     if case.get("kind") == "template_expr":
         return check_surface_case(case)
+    if case.get("kind") == "yaml_tag":
+        return check_yaml_tag_case(case)
     import yaml
     from sigma.backends.test import TextQueryTestBackend
     from sigma.collection import SigmaCollection
@@ -424,6 +473,10 @@ def run(ctx) -> None:
             ctx.do({"kind": kind, "depth": 0, "inject": None, "inject_top": None, "optin_arg": True, "env": None,
                     "loader": "yaml", "path_class": "inside", "restrict": False})
     ctx.hyp(cases(), 1500 if ctx.tier == "quick" else 8000)
+    if ctx.shard == 0:
+        for t in range(len(YAML_TAG_TEXTS)):
+            for loader in ("yaml", "resolver"):
+                ctx.do({"kind": "yaml_tag", "text": t, "loader": loader})
     # template texts over the whole public surface reachable from the template context
     if ctx.shard == 0:  # two-step attempts: build a gated item with the opt-in argument, then use it
         for a in ("cmd_kw", "file_kw", "http_kw"):
